@@ -108,3 +108,33 @@ def rules_of(config, cwd=None):
             return _bucket(e)
     finally:
         os.chdir(old)
+
+
+def oxi_parse_lines(lines):
+    """Strict N-Quads parse (pyoxigraph) of each line + ' .'; returns per line None or a list of parsed quads as nested lists."""
+    import io, pyoxigraph
+    def term(t):
+        if isinstance(t, pyoxigraph.NamedNode):
+            return ['iri', t.value]
+        if isinstance(t, pyoxigraph.BlankNode):
+            return ['bnode', t.value]
+        if isinstance(t, pyoxigraph.Literal):
+            if t.language:
+                return ['lit', t.value, '@', t.language]
+            dt = t.datatype.value
+            if dt == 'http://www.w3.org/2001/XMLSchema#string':
+                return ['lit', t.value, '', '']
+            return ['lit', t.value, '^', dt]
+        if isinstance(t, pyoxigraph.DefaultGraph):
+            return None
+        if isinstance(t, pyoxigraph.Triple):
+            return ['star', term(t.subject), term(t.predicate), term(t.object)]
+        return ['other', str(t)]
+    out = []
+    for l in lines:
+        try:
+            qs = list(pyoxigraph.parse(io.BytesIO((l + ' .\n').encode('utf-8')), 'application/n-quads'))
+            out.append([[term(q.subject), term(q.predicate), term(q.object), term(q.graph_name)] for q in qs])
+        except Exception as e:
+            out.append(None)
+    return out
